@@ -691,15 +691,26 @@ impl Server for GitSyncServer {
             parent_version_id,
             history_segment,
         };
-        // Write and commit. If that fails part-way, discard the uncommitted changes, or the
-        // meta file would go on naming a version that does not exist.
-        if let Err(e) = self.write_and_commit_version(&version) {
-            self.git.discard_uncommitted(&self.local_path)?;
-            self.read_meta()?;
-            return Err(e);
-        }
+        // Write, commit and push. If that fails part-way, go back to the commit this started
+        // from: uncommitted changes would leave the meta file naming a version that does not
+        // exist, and a commit that was made but not pushed would go on being served to this
+        // clone's readers although the remote, and so every other replica, never accepted it.
+        let head = self.git.output(&self.local_path, &["rev-parse", "HEAD"])?;
+        let pushed = match self
+            .write_and_commit_version(&version)
+            .and_then(|()| self.push())
+        {
+            Ok(pushed) => pushed,
+            Err(e) => {
+                self.git
+                    .cmd_ok(&self.local_path, &["reset", "--hard", &head])?;
+                self.git.clean_stray_files(&self.local_path)?;
+                self.read_meta()?;
+                return Err(e);
+            }
+        };
 
-        if !self.push()? {
+        if !pushed {
             // Push was rejected. Undo the commit. reset_to_remote will fetch, reset --hard,
             // and clean away the stray version file.
             self.git
